@@ -136,7 +136,7 @@ func pureOrigin(full string) string {
 }
 
 // specMethodCall resolves x.M(args) in a contract expression to a pure function.
-func (env *SpecEnv) specMethodCall(e *SExpr) (specVal, bool) {
+func (env *SpecEnv) specMethodCall(e *SExpr, sel int) (specVal, bool) {
 	if e.Recv == nil {
 		return specVal{}, false
 	}
@@ -181,10 +181,7 @@ func (env *SpecEnv) specMethodCall(e *SExpr) (specVal, bool) {
 		}
 		full := "iface " + n.Obj().Pkg().Path() + "." + n.Obj().Name() + "." + meth
 		rs := fx.pureApply(env.st, full, sig, x.t, args, false)
-		if len(rs) != 1 {
-			env.fail("%s: %d results", e.Name, len(rs))
-		}
-		return specVal{rs[0], sig.Results().At(0).Type()}, true
+		return env.pickResult(e.Name, rs, sig, sel), true
 	}
 	fn := fx.e.prog.FuncValue(f)
 	if fn == nil || !fx.pureFuncOf(fn) {
@@ -221,15 +218,12 @@ func (env *SpecEnv) specMethodCall(e *SExpr) (specVal, bool) {
 		}
 	}
 	rs := fx.pureApply(env.st, fn.String(), sig, recv.t, args, false)
-	if len(rs) != 1 {
-		env.fail("%s: %d results", e.Name, len(rs))
-	}
-	return specVal{rs[0], sig.Results().At(0).Type()}, true
+	return env.pickResult(e.Name, rs, sig, sel), true
 }
 
 // specPureFuncCall resolves f(args) / pkg.f(args) in a contract expression to a /repo
 // function whose contract says `pure`, or to a function of a pure package.
-func (env *SpecEnv) specPureFuncCall(e *SExpr) (specVal, bool) {
+func (env *SpecEnv) specPureFuncCall(e *SExpr, sel int) (specVal, bool) {
 	fx := env.fx
 	name := e.Name
 	var pkg *ssa.Package
@@ -259,10 +253,22 @@ func (env *SpecEnv) specPureFuncCall(e *SExpr) (specVal, bool) {
 		args = append(args, env.expr(a).t)
 	}
 	rs := fx.pureApply(env.st, fn.String(), fn.Signature, nil, args, false)
-	if len(rs) != 1 {
-		env.fail("%s: %d results", e.Name, len(rs))
+	return env.pickResult(e.Name, rs, fn.Signature, sel), true
+}
+
+// pickResult: a pure call in a contract denotes its only result; res0(call) / res1(call) / ... select
+// one result of a call with several.
+func (env *SpecEnv) pickResult(name string, rs []*Term, sig *types.Signature, sel int) specVal {
+	i := 0
+	if sel > 0 {
+		i = sel - 1
+	} else if len(rs) != 1 {
+		env.fail("%s: %d results (select one with res0(...), res1(...))", name, len(rs))
 	}
-	return specVal{rs[0], fn.Signature.Results().At(0).Type()}, true
+	if i >= len(rs) {
+		env.fail("%s: no result %d", name, i)
+	}
+	return specVal{rs[i], sig.Results().At(i).Type()}
 }
 
 // pureOnly: a contract that only declares the function pure (no pre/postconditions): nothing to
